@@ -30,6 +30,9 @@ type Spec struct {
 	TagMatrix [][]string
 	// Mutants are checker-validation witnesses for the thorough tier.
 	Mutants []Mutant
+	// Gaps are reported surviving mutants that are not closed yet; they are
+	// never part of a check, only of `lndlint mutants -gaps`.
+	Gaps []Mutant
 }
 
 var registry = map[string]*Spec{}
